@@ -191,21 +191,22 @@ func runC02(c *Ctx) {
 			return
 		}
 		nUse, nRet := 0, 0
-		for _, r := range DelegatedReturns(daNext) {
-			if len(r.Results) != 2 {
+		for _, vr := range VirtualReturns(daNext) {
+			if len(vr.Results) != 2 {
 				continue
 			}
-			okv, isC := ConstCond(r.Results[1])
+			okv, isC := ConstCond(vr.Results[1])
 			if !isC {
 				continue // O1.3 reports a non-constant ok
 			}
 			nRet++
+			r := vr.At
 			if okv {
 				below, _ := cmpWithN(r, func(v ssa.Value) bool { return claimed(v, r) })
-				c.Check(below, "O2.1", fk(r.Parent())+":token-only-for-a-claimed-index-below-n", r.Pos(), "a token is returned only where the claimed index (fetch-and-increment result - 1, or a value swapped in by a successful CompareAndSwap(v, v+1)) is known to be < n")
+				c.Check(below, "O2.1", fk(r.Parent())+":token-only-for-a-claimed-index-below-n", vr.Ret.Pos(), "a token is returned only where the claimed index (fetch-and-increment result - 1, or a value swapped in by a successful CompareAndSwap(v, v+1)) is known to be < n")
 			} else {
 				_, notBelow := cmpWithN(r, func(v ssa.Value) bool { return claimed(v, r) || isLoadI(resolve(v)) })
-				c.Check(notBelow, "O2.1", fk(r.Parent())+":exhausted-only-on-index-not-below-n", r.Pos(), "'no tokens left' is returned only where the claimed index or the counter itself is known to be >= n")
+				c.Check(notBelow, "O2.1", fk(r.Parent())+":exhausted-only-on-index-not-below-n", vr.Ret.Pos(), "'no tokens left' is returned only where the claimed index or the counter itself is known to be >= n")
 			}
 		}
 		c.Floor("O2.1", "returns of doAtSchedule.Next with a constant ok", nRet, 2)
